@@ -198,16 +198,23 @@ impl RdbEngine {
         
         // Spawn background thread
         thread::spawn(move || {
+            // Clears the in-progress flag however the save ends (error or panic),
+            // so that later background saves are not refused for ever
+            struct ClearInProgress(Arc<Mutex<bool>>);
+            impl Drop for ClearInProgress {
+                fn drop(&mut self) {
+                    let mut bgsave = self.0.lock().unwrap_or_else(|e| e.into_inner());
+                    *bgsave = false;
+                }
+            }
+            let _clear_in_progress = ClearInProgress(Arc::clone(&engine.bgsave_in_progress));
+            
             println!("RDB: Background saving started");
             
             match engine.save(&storage) {
                 Ok(_) => println!("RDB: Background saving terminated with success"),
                 Err(e) => eprintln!("RDB: Background saving error: {}", e),
             }
-            
-            // Clear in-progress flag
-            let mut bgsave = engine.bgsave_in_progress.lock().unwrap();
-            *bgsave = false;
         });
         
         Ok(())
